@@ -1385,8 +1385,7 @@ def round_trips(spec, tmpdir):
                 fails.append(('%s:%s:%s' % (what, fam, ck), '%s raised %s although the default call writes this object' % (route, type(e).__name__)))
             if rec['fresh'] == 'ok':
                 y = rd(route)
-                if y is not None:
-                    compare(y, route, fam)
+                rec['fresh_holds'] = 'new' if (y is not None and compare(y, route, fam)) else '?'
             unchanged(route, fam)
             # (2) the path holds another object, overwrite=False given positionally: either refused, and then the file is
             # byte for byte what it was and still reads as the old object, or accepted, and then it reads as the new one
@@ -1406,16 +1405,18 @@ def round_trips(spec, tmpdir):
                     rec['over_false'] = ERRMAP.get(type(e).__name__, 'other:' + type(e).__name__)
                     with open(fn, 'rb') as fh:
                         same = fh.read() == old_bytes
+                    rec['over_false_holds'] = '?'
                     if not same:
                         fails.append(('refused-write-alters-file:%s:%s:%s' % (what, fam, ck), '%s raised %s but the file that was there has changed' % (route, type(e).__name__)))
                     else:
                         yd = rd(route + ' (refused)')
                         if yd is not None and first_difference(what, sig(decoy), sig(yd)) is not None:
                             fails.append(('refused-write-alters-file:%s:%s:%s' % (what, fam, ck), '%s was refused but the old file no longer reads as the object it held' % route))
+                        elif yd is not None:
+                            rec['over_false_holds'] = 'old'
                 if rec['over_false'] == 'ok':
                     y = rd(route)
-                    if y is not None:
-                        compare(y, route + ' (accepted)', fam)
+                    rec['over_false_holds'] = 'new' if (y is not None and compare(y, route + ' (accepted)', fam)) else '?'
                 unchanged(route, fam)
                 # (3) overwrite=True over an existing file: always the new object, never the old one or a mixture
                 route = 'write_%s(x, name, overwrite=True) over an existing %s file' % (what, sp_fmt)
@@ -1430,8 +1431,7 @@ def round_trips(spec, tmpdir):
                     fails.append(('%s:%s:%s' % (what, fam, ck), '%s raised %s although the default call on a fresh path writes this object' % (route, type(e).__name__)))
                 if rec['over_true'] == 'ok':
                     y = rd(route, fmt=None)
-                    if y is not None:
-                        compare(y, route, fam)
+                    rec['over_true_holds'] = 'new' if (y is not None and compare(y, route, fam)) else '?'
                 unchanged(route, fam)
                 # (4) asdf: the module switch use_asdf_memmap selects the keyword asdf.open() gets; with the other setting
                 # the installed asdf may refuse the keyword (counted), but if it reads, it reads the same object
@@ -1636,6 +1636,12 @@ def model_requests(spec, obs):
         else:
             exp = 'ok read=%s tag=%s holds=true' % (rec['read'], tag)
         reqs.append(('dtype', 'C16 dtype %s %s %s' % (rec['route'], rec['d'], rec['vals']), exp))
+    if 'spell' in obs:
+        r = obs['spell']
+        for k_, ex, ov in (('fresh', 'F', 'F'), ('over_false', 'T', 'F'), ('over_true', 'T', 'T')):
+            if k_ in r:
+                st_ = {'ok': 'ok', 'other:OSError': 'err os'}.get(r[k_], 'err ' + r[k_])
+                reqs.append(('overwrite', 'C16 overwrite %s %s %s' % (r['fam'], ex, ov), '%s holds=%s' % (st_, r.get(k_ + '_holds', '?'))))
     if 'tree' not in obs and 'nogrid_tree' in obs:
         # a mode basis without grid has no dictionary form: every write with a resolvable format is refused with
         # AttributeError (to_dict() runs before the dispatch), in pickle and unknown formats too
